@@ -240,6 +240,17 @@ def check(ctx):
             why = 'add_header_callback returns at line %d without recording a registration that differs from the existing one (only some of the five fields are compared)' % n.line
     ctx.inst('R6', add, 'every-distinct-registration-recorded', okreg, why)
     port_registration_rules(ctx, 'R6')
+    # the public registration API of Crazyflie hands its arguments to the dispatcher unchanged and in the dispatcher's order
+    K_ = m.cls(CF, 'Crazyflie')
+    for wn in ('add_port_callback', 'remove_port_callback', 'add_header_callback', 'remove_header_callback'):
+        if not (K_.has(wn) and klass.has(wn)):
+            continue
+        w_ = K_.method(wn)
+        fw = [c for c in walk_own(w_.node) if isinstance(c, ast.Call) and norm(c.func) == 'self.incoming.%s' % wn]
+        tgt = klass.method(wn)
+        okw = len(fw) == 1 and not fw[0].keywords and [norm(a_) for a_ in fw[0].args] == w_.params[1:1 + len(fw[0].args)] and w_.params[1:] == tgt.params[1:] and len(fw[0].args) == len(tgt.params) - 1
+        ctx.inst('R6', w_, 'api-forwards-arguments-in-order', okw, 'Crazyflie.%s%s forwards to the dispatcher\'s %s%s with %s' %
+                 (wn, tuple(w_.params[1:]), wn, tuple(tgt.params[1:]), [norm(a_) for c in fw for a_ in c.args]))
     from .c08 import received_header_rules
     received_header_rules(ctx, 'R8')      # pk.port / pk.channel of a received packet are header bits 7..4 / 1..0 (shared with C08.R4)
 
@@ -469,6 +480,7 @@ def check_snapshot(ctx, func, klass, loop, itexpr, rule='R2'):
 
 
 VARIANTS = [
+    M('R6', CF, "        self.incoming.add_header_callback(cb, port, channel, port_mask, channel_mask)", "        self.incoming.add_header_callback(cb, port, channel, channel_mask, port_mask)", 'masks crossed in the public API'),
     M('R8', 'cflib/crtp/crtpstack.py', "        self._channel = header & 0x03", "        self._channel = header & 0x07", 'link bit leaks into the channel'),
     M('RG', CF, "                    import traceback\n\n                    logger.error('Exception while doing callback on port'", "                    logger.error('Exception while doing callback on port'", 'handler reads a name nothing binds'),
     M('R6', CF, "        self.remove_header_callback(cb, port, 0, 0xff, 0x0)", "        self.cb = [c for c in self.cb if not (c.port == port and c.callback == cb)]", 'port removal drops every registration of cb on the port'),
